@@ -8,5 +8,7 @@ CONSTANTS
   MaxLen = 3
   MaxOps = 12
   Variant = "fresh"
+  ElemOf <- Elem3
+  CacheVariant = "none"
 INVARIANT EmitBehaviours
 CHECK_DEADLOCK FALSE
